@@ -25,6 +25,7 @@ import (
 	"fmt"
 	"math/rand"
 	"sort"
+	"strings"
 	"sync"
 	"sync/atomic"
 
@@ -46,6 +47,7 @@ type world struct {
 	nextRule int
 	nextPeer uint64
 	fits     int
+	variants bool // label values / keys come in letter-case variants, prefixes and empty strings
 }
 
 func (w *world) step(f string, a ...interface{}) {
@@ -68,6 +70,10 @@ func newWorld(seed uint64) *world {
 	rng := w.rng
 	w.bc = core.NewBasicCluster()
 	specs := genStores(rng, 5+rng.Intn(4), rng.Intn(3) == 0, false, 3, 3)
+	w.variants = rng.Intn(3) == 0
+	if w.variants {
+		variantizeStores(rng, specs)
+	}
 	for _, s := range specs {
 		w.bc.PutStore(core.NewStoreInfo(&metapb.Store{Id: s.ID, Address: fmt.Sprintf("mock://store-%d", s.ID), Labels: metaLabels(s.Labels)}))
 	}
@@ -90,6 +96,9 @@ func newWorld(seed uint64) *world {
 				r.Count = 1
 			}
 			c.Rules = append(c.Rules, r)
+		}
+		if w.variants {
+			variantizeRules(rng, c.Rules)
 		}
 		if w.mgr.SetRules(plainRules(c)) == nil && w.mgr.DeleteRule("pd", "default") == nil {
 			ok = true
@@ -337,7 +346,7 @@ func (w *world) evolveRegion(ri int) {
 }
 
 // updateLabels replaces one store by old.Clone(SetStoreLabels(new)) as RaftCluster.putStoreImpl does.
-func updateLabels(rng *rand.Rand, bc *core.BasicCluster) string {
+func updateLabels(rng *rand.Rand, bc *core.BasicCluster, variants bool) string {
 	stores := bc.GetStores()
 	sort.Slice(stores, func(i, j int) bool { return stores[i].GetID() < stores[j].GetID() })
 	old := stores[rng.Intn(len(stores))]
@@ -347,7 +356,7 @@ func updateLabels(rng *rand.Rand, bc *core.BasicCluster) string {
 	}
 	has := func(k string) int {
 		for i, l := range ls {
-			if l.Key == k {
+			if strings.EqualFold(l.Key, k) {
 				return i
 			}
 		}
@@ -378,6 +387,18 @@ func updateLabels(rng *rand.Rand, bc *core.BasicCluster) string {
 			ls[i].Value = pick(rng, disks)
 		} else {
 			ls = append(ls, &metapb.StoreLabel{Key: "disk", Value: pick(rng, disks)})
+		}
+	}
+	if variants {
+		for _, l := range ls {
+			switch v := rng.Intn(100); {
+			case v < 20:
+				l.Value = caseVariant(rng, l.Value)
+			case v < 25:
+				l.Value = strings.ToLower(l.Value)
+			case v < 28:
+				l.Value += "0"
+			}
 		}
 	}
 	bc.PutStore(old.Clone(core.SetStoreLabels(ls)))
@@ -450,7 +471,7 @@ func (w *world) runSequential(x *runner, lc *local, steps int) {
 	for s := 0; s < steps; s++ {
 		switch v := w.rng.Intn(10); {
 		case v < 3:
-			w.step("%s", updateLabels(w.rng, w.bc))
+			w.step("%s", updateLabels(w.rng, w.bc, w.variants))
 			lc.count("history_store_label_updates", 1)
 		case v < 6:
 			fail := w.rng.Intn(6) == 0
@@ -596,7 +617,7 @@ func (w *world) runConcurrent(x *runner, kind string, readers, fitsEach, updates
 				// implementation special case outside the statement: a rule that no store of the LISTING
 				// satisfies gets no candidates. With a listing and per-peer lookups taken at different
 				// moments the two can disagree; such a call is not judged.
-				def := reading{kfLookup: true, kfExclName: true, kfExclSpec: true, eaLookup: true, eaExcl: true, vfCons: true, vfLoc: true, missSame: true}
+				def := docReading
 				amb := false
 				for k := range c.Rules {
 					anyPeer, anyList := false, false
@@ -637,7 +658,7 @@ func (w *world) runConcurrent(x *runner, kind string, readers, fitsEach, updates
 				if kind == "rule-updates" {
 					s = updateRules(rng, w.mgr, w.kv, &next, rng.Intn(8) == 0)
 				} else {
-					s = updateLabels(rng, w.bc)
+					s = updateLabels(rng, w.bc, w.variants)
 				}
 				atomic.AddInt64(&version, 1)
 				logMu.Lock()
